@@ -12,7 +12,7 @@ theorem idString_toList (i : IdStr) :
     (idString i).toList = Nat.toDigits 10 i.1 ++ (if i.2 = 0 then [] else '.' :: Nat.toDigits 10 i.2) := by
   unfold idString
   split
-  · simp [toString_toList, *]
+  · simp [*]
   · simp only [String.toList_append, toString_toList, List.append_assoc]
     rfl
 
